@@ -746,4 +746,16 @@ theorem reachB_sound (T : Table) : ∀ p m t, reachB T m t p = true → Reach T 
             · simp at hrest
           · simp at hrest
 
+/-- `reachB` from the method that `ASTVisitor.visit` selects -/
+def reachVB (T : Table) (t : Node) (p : List (String × Option Nat)) : Bool :=
+  match T.visit.lookup t.kind with
+  | some m => reachB T m t p
+  | none => false
+
+theorem reachVB_sound (T : Table) (t : Node) (p : List (String × Option Nat)) (h : reachVB T t p = true) : ReachV T t p := by
+  unfold reachVB at h
+  split at h
+  · rename_i m hm; exact ⟨m, hm, reachB_sound T p m t h⟩
+  · simp at h
+
 end PyGql.Props.C18
